@@ -1,0 +1,27 @@
+//go:build verif
+
+package transport
+
+// Verification hook for property C13 (connection loop). Add-only; compiled only
+// with -tags verif.
+
+import (
+	"net"
+
+	"github.com/lni/dragonboat/v4/config"
+	pb "github.com/lni/dragonboat/v4/raftpb"
+)
+
+// VerifC13ServeConn builds the TCP transport module for nhConfig through
+// NewTCPTransport with the given handlers and runs its per-connection loop
+// serveConn on conn until the loop returns (which is when Start's connection
+// worker closes the connection).
+func VerifC13ServeConn(nhConfig config.NodeHostConfig, conn net.Conn,
+	onBatch func(pb.MessageBatch), onChunk func(pb.Chunk) bool) {
+	t := NewTCPTransport(nhConfig, onBatch, onChunk)
+	tcp, ok := t.(*TCP)
+	if !ok {
+		panic("NewTCPTransport did not return *TCP")
+	}
+	tcp.serveConn(conn)
+}
